@@ -268,13 +268,46 @@ def phpWorlds : List World :=
 def specialDefaults (s : CliSpec) : World :=
   ((mainOpts s).filter isSpecial).map (fun o => (o.dest, avOfVal o.defaultVal))
 
+def flagOpts (s : CliSpec) : List OptSpec := (mainOpts s).filter (fun o => !isSpecial o)
+
+def specialOpts (s : CliSpec) : List OptSpec := (mainOpts s).filter isSpecial
+
+/-- what the custom action of the sub-command can bind: one list per sub-parser (`php`: graph form, numeric form) -/
+def specialWorlds (s : CliSpec) : List World :=
+  if s.cls == "PHPCmdHelper" then phpWorlds
+  else match (mainOpts s).find? (fun o => o.action == "compose_two_parsers") with
+    | some o => o.compose.map (subWorld s)
+    | Option.none => [[]]
+
 def worlds (s : CliSpec) : List World :=
-  let special : List World :=
-    if s.cls == "PHPCmdHelper" then phpWorlds
-    else match (mainOpts s).find? (fun o => o.action == "compose_two_parsers") with
-      | some o => o.compose.map (subWorld s)
-      | Option.none => [[]]
-  special.map (fun sw => sw ++ mainWorld s ++ specialDefaults s)
+  (specialWorlds s).map (fun sw => sw ++ mainWorld s ++ specialDefaults s)
+
+def keysOf (w : World) : List String := w.map (·.1)
+
+/-- a positional of a sub-parser as the model understands it: one typed or chosen string, an optional typed string, a
+graph -/
+def subOptOK (o : OptSpec) : Bool :=
+  o.action != "PHPArgs" && o.action != "compose_two_parsers" && !isFileType o.ty && o.group == "" &&
+  (match o.arity with
+   | .one => o.ty != "" || !o.choices.isEmpty
+   | .opt => o.ty != "" && (match o.defaultVal with | .int _ => true | .none => true | _ => false)
+   | .plus => true
+   | _ => false)
+
+/-- the shape of the option table that the derivation of the worlds assumes: one custom positional and nothing else
+positional; the other options of the main parser are flags; the dests of the sub-parsers, of the flags and of the
+custom action do not overlap; the sub-parsers' positionals are of the kinds the model understands -/
+def worldTablesOK (s : CliSpec) : Bool :=
+  positionals s == specialOpts s && (specialOpts s).length == 1 &&
+  (flagOpts s).all (fun o => o.arity == .zero && !isFileType o.ty && !o.positional) &&
+  (specialWorlds s).all (fun sw =>
+    (keysOf sw).Nodup &&
+    (keysOf sw).all (fun d => !((flagOpts s).map (·.dest)).contains d && !((specialOpts s).map (·.dest)).contains d)) &&
+  ((flagOpts s).map (·.dest)).all (fun d => !((specialOpts s).map (·.dest)).contains d) &&
+  (if s.cls == "PHPCmdHelper" then (specialOpts s).all (fun o => o.action == "PHPArgs")
+   else (specialOpts s).all (fun o => o.action == "compose_two_parsers" && o.compose.length == 2 &&
+     o.compose.all (fun p => (subPositionals s p).all subOptOK && ((subPositionals s p).map (·.dest)).Nodup) &&
+     (mainOpts s).find? (fun o' => o'.action == "compose_two_parsers") == some o))
 
 /-- every path of the helper, in every world of the sub-command (for EVERY order of a graph file), ends in a call that
 can be built or in a ValueError -/
